@@ -25,7 +25,7 @@ type H struct {
 	Cands      []adv.Cand `json:"cands"`
 }
 
-const rule = "rapid-drawn logs (n<=64) and, per log, drawn candidate answers = genuine wire-form answers (members at every (e,q), honest answers for non-members incl. digests sharing a member's shortcut-leaf prefix) under 0-3 operators {flip Exists; set Actual/Query/Current version to 0,+-1,another event's version,q+1,current+1,2^63-1,2^64-1; replace KeyDigest; drop/bit-flip/rename/duplicate-under-new-key a history or hyper audit-path entry; drop up to 3 entries; splice the history (or hyper) part of another genuine answer}, asked about the same or another digest; verified as a client does against authentic snapshots (history digest of the answer's QueryVersion, hyper digest of its CurrentVersion; or the selection of client.MembershipAutoVerify). Oracle: accept => Exists and ActualVersion<=QueryVersion and events[ActualVersion]==asked digest. evaluations = candidates checked. Non-trivial: the candidate's claim is false and at least one of its two sub-proofs verifies in isolation; distinct = FNV-64 of (log, candidate)."
+const rule = "rapid-drawn logs (n<=64) and, per log, drawn candidate answers = genuine wire-form answers (members at every (e,q), honest answers for non-members incl. digests sharing a member's shortcut-leaf prefix) under 0-3 operators {flip Exists; set Actual/Query/Current version to 0,+-1,another event's version,q+1,current+1,2^63-1,2^64-1; replace KeyDigest; drop/bit-flip/rename/duplicate-under-new-key a history or hyper audit-path entry; drop up to 3 entries; splice the history (or hyper) part of another genuine answer; add an entry for a node ON the path from the claimed leaf to the root carrying that node's true hash (the root's is the public history digest)}, asked about the same digest, another digest of the pool, or a never-inserted near miss of the base event (one bit flipped, usually deep enough to stay in the same hyper subtree, where the hyper half of the genuine answer still verifies); verified as a client does against authentic snapshots (history digest of the answer's QueryVersion, hyper digest of its CurrentVersion; or the selection of client.MembershipAutoVerify). Oracle: accept => Exists and ActualVersion<=QueryVersion and events[ActualVersion]==asked digest. evaluations = candidates checked. Non-trivial: the candidate's claim is false and at least one of its two sub-proofs verifies in isolation; distinct = FNV-64 of (log, candidate)."
 
 func TestSoundness(t *testing.T) {
 	rec := pbt.NewRec("C02", "TestSoundness", rule,
@@ -81,6 +81,12 @@ func TestSoundness(t *testing.T) {
 			if rapid.IntRange(0, 2).Draw(rt, "askother") == 0 {
 				c.Ask = rapid.IntRange(0, pool-1).Draw(rt, "ask")
 			}
+			if c.Ev >= 0 && c.Ask < 0 && rapid.IntRange(0, 3).Draw(rt, "near") == 0 {
+				c.Near = 1 + rapid.OneOf(rapid.IntRange(24, 60), rapid.IntRange(0, 255)).Draw(rt, "near-bit")
+				if rapid.Bool().Draw(rt, "near-onpath") {
+					c.Ops = append(c.Ops, adv.Op{Kind: "hist-onpath", A: rapid.IntRange(0, 63).Draw(rt, "a"), B: rapid.IntRange(0, 63).Draw(rt, "b")})
+				}
+			}
 			c.AutoSnap = rapid.IntRange(0, 3).Draw(rt, "auto") == 0
 			h.Cands = append(h.Cands, c)
 		}
@@ -128,6 +134,10 @@ func exec(h H, rec *pbt.Rec) error {
 		asked := w.Pool(di)
 		if c.Ask >= 0 {
 			asked = w.Pool(c.Ask)
+		} else if c.Near > 0 {
+			k := (c.Near - 1) % 256
+			asked[k/8] ^= 1 << uint(7-k%8)
+			rec.Class("ask:near-miss-of-the-base-event", 1)
 		}
 		// the client needs authentic snapshots for the versions the answer names
 		if mr.QueryVersion >= uint64(w.N) || mr.CurrentVersion >= uint64(w.N) {
